@@ -19,7 +19,9 @@ RULE = (
     "vocabulary of code and data patches; a committed corpus of past failures runs first. Distinct by (module, "
     "request list); non-trivial when at least one request is registered. Per case: the section bytes after apply() "
     "against the listing specification, every recorded insert/delete against the Lean IR model, the interval "
-    "positions used by _apply_modifications against the running-offset model"
+    "positions used by _apply_modifications against the running-offset model; plus modules whose .text interval "
+    "begins with 1-5 bytes that no block covers (blocks that do not start at offset 0 of their interval) with one or "
+    "two raw-byte requests, judged by a direct splice of the bytes"
 )
 ASSUMPTIONS = [
     "x86-64 ELF only and one code section in the generated modules (the byte bookkeeping is ISA independent; the nop used for padding is the only ISA-specific byte, taken from ABI.nop())",
@@ -33,9 +35,95 @@ TRUSTED = [
 ]
 
 
+def gen_lead(rng):
+    """a module whose .text interval starts with bytes that no block covers, one or two requests"""
+    import emodify
+
+    case = emodify.gen_case(rng, nblocks=rng.randint(1, 3), with_data=False, nedits=0)
+    for d in case["text"]:
+        d.pop("align", None)
+    case["lead"] = rng.randint(1, 5)
+    edits = []
+    for i in rng.sample(range(len(case["text"])), rng.randint(1, min(2, len(case["text"])))):
+        d = case["text"][i]
+        offs = emodify.block_layout(d)
+        o = rng.choice(offs[:-1]) if len(offs) > 1 else 0
+        k = rng.random()
+        if k < 0.5:
+            edits.append({"op": "insert", "block": i, "off": o, "bytes": [0xD0 + len(edits), 0x90]})
+        elif k < 0.75:
+            end = rng.choice([x for x in offs if x > o])
+            edits.append({"op": "delete", "block": i, "off": o, "len": end - o})
+        else:
+            end = rng.choice([x for x in offs if x > o])
+            edits.append({"op": "replace", "block": i, "off": o, "len": end - o, "bytes": [0xE0 + len(edits)]})
+    case["edits"] = edits
+    return {"lead_case": True, "case": case}
+
+
+def check_lead(ctx, g):
+    """direct oracle for blocks that do not start at offset 0 of their byte interval: the section's bytes after the
+    rewrite are the uncovered prefix followed by each block's bytes with its requests spliced in"""
+    import json
+    import logging
+
+    import gtirb_functions
+
+    import emodify
+    from gtirb_rewriting import Patch, RewritingContext, patch_constraints
+
+    logging.disable(logging.CRITICAL)
+    case = LE.strip_case(g["case"])
+    payload = dict(g, case=case)
+    ctx.case(payload, sample=payload if len(ctx.samples) < 5 else None, nontrivial=True)
+    ctx.count("lead:%d" % case["lead"])
+    B = emodify.build(json.loads(json.dumps(case)))
+    m = B.m
+    bi0 = B.blocks[0].byte_interval
+    before = bytes(bi0.contents)
+    want = bytearray(before[:case["lead"]])
+    for i, blk in enumerate(B.blocks):
+        data = bytearray(before[blk.offset:blk.offset + blk.size])
+        for e in sorted((e for e in case["edits"] if e["block"] == i), key=lambda e: -e["off"]):
+            data[e["off"]:e["off"] + e.get("len", 0)] = bytes(e.get("bytes", []))
+        want += data
+    rc = RewritingContext(m, gtirb_functions.Function.build_functions(m))
+
+    def raw(bs):
+        @patch_constraints()
+        def p(ic):
+            return ".byte " + ", ".join(str(b) for b in bs)
+
+        return Patch.from_function(p)
+
+    for e in case["edits"]:
+        blk = B.blocks[e["block"]]
+        if e["op"] == "insert":
+            rc.insert_at(blk, e["off"], raw(e["bytes"]))
+        elif e["op"] == "replace":
+            rc.replace_at(blk, e["off"], e["len"], raw(e["bytes"]))
+        else:
+            rc.delete_at(blk, e["off"], e["len"])
+    try:
+        rc.apply()
+    except Exception as e:  # noqa: BLE001
+        ctx.violation("C01:lead:raises", "apply() raised %s: %s on a module whose first block does not start its byte interval" % (type(e).__name__, str(e)[:100]), payload)
+        return
+    text = next(s for s in m.sections if s.name == ".text")
+    got = b"".join(bytes(bi.contents) for bi in sorted(text.byte_intervals, key=lambda b: b.address))
+    if got != bytes(want):
+        ctx.violation("C01:lead:bytes", ".text holds %s, the listing gives %s (the first %d bytes are covered by no block)" % (got.hex(), bytes(want).hex(), case["lead"]), payload)
+
+
 def run(ctx):
     LE.run(ctx, "C01", 1500, 40000)
+    for _ in range(ctx.budget(120, 3000)):
+        check_lead(ctx, gen_lead(ctx.rng))
 
 
 def replay(ctx, payload):
-    LE.replay(ctx, "C01", payload)
+    case = payload.get("case", payload)
+    if isinstance(case, dict) and case.get("lead_case"):
+        check_lead(ctx, case)
+    else:
+        LE.replay(ctx, "C01", payload)
